@@ -234,7 +234,7 @@ Proof.
     + intros x Hx. rewrite rename_tree_owned in Hx. rewrite Es. apply Hown. exact Hx.
   - (* new symbol *)
     destruct Hv as [Hk HsB].
-    assert (HB : add_sym_tree k (sname y) s B = B) by (apply add_sym_id; apply Hids; exact Hk).
+    assert (HB : add_sym_tree k (norm (sname y)) s B = B) by (apply add_sym_id; apply Hids; exact Hk).
     rewrite HB.
     set (W1 := {| hs := upd (hs W) s y; ho := ho W |}).
     assert (Hag : agree W W1 B).
